@@ -13,13 +13,18 @@ use crate::pool::{MutationCfg, World, WorldCfg, seam_a_pool};
 use crate::seam_b::Bounds;
 use crate::{seam_a, seam_b};
 
-const RULE: &str = "Seam A: for every certificate c of the pool (base certificates of 4 chains + every structural mutation) the real \
-verify_certificate(c) is executed once per provider answer (every pool member claiming the requested hash, every base certificate, \
-'not found'; for base rows and re-targeted rows every pool member); a pair is non-trivial when c is sound on its own and the answer \
-claims the requested hash, i.e. the chaining rule itself decides. Seam B: every history of verify_chain calls (any start certificate, \
-provider deviating from the honest answer at a bounded number of requests by serving any pool member / not-found / an error) on the \
-real client verifier sharing one real cache, explored breadth-first over distinct cache contents; a call is non-trivial when at least \
-two certificates were validated or the cache was used. distinct = distinct (certificate, answer) pairs / (cache state, start, deviations) triples";
+const RULE: &str = "Seam A (states = certificates): for every certificate c of a finite pool (the certificates of four chains - two \
+built by the project's CertificateChainBuilder, one honest with parameters changing per epoch, one adversarial under its own genesis key \
+and signer keys - plus every structural mutation of each: re-targeted / dropped / dangling / self links, epoch +-1, swapped aggregate key, \
+parameters, signature, signed statement, altered or removed signed commitments, each with and without recomputed hash and, where keys allow, \
+re-signed; plus children re-targeted to the recomputed mutants of their parent) the real verify_certificate(c) is executed once per provider \
+answer: every pool member claiming the requested hash, every base certificate, 'not found' (the whole pool for base rows and, thorough, for \
+re-targeted rows of chains H2 and A); then the real verify_certificate_chain from every member with a provider answering by hash. A pair is \
+non-trivial when c is sound on its own and the answer claims the requested hash, i.e. when the chaining rule itself decides. \
+Seam B (states = cache contents): every history of client verify_chain calls - any pool member as start, provider deviating from the honest \
+answer at a bounded number of requests by serving any pool member, 'not found' or an error - on the real client verifier with the real \
+in-memory cache, explored breadth-first over distinct cache contents; a call is non-trivial when at least two certificates were validated or \
+the cache was used. distinct = distinct (certificate, answer) pairs / chain starts / (cache state, start, deviations) triples";
 
 pub fn run(ctx: &Ctx) -> ! {
     let threads = ctx.threads();
